@@ -383,10 +383,10 @@ def _unsig(s):
 def main(ck):
     tree = cy.Tree('C23')
     rng = ck.rng('bodies')
-    nbodies = ck.pick(72, 1440)
-    per_mod = ck.pick(9, 24)
+    nbodies = ck.pick(72, 360)
+    per_mod = ck.pick(9, 15)
     nrand = ck.pick(40, 200)
-    n_exh_bodies = ck.pick(6, 50)
+    n_exh_bodies = ck.pick(6, 18)
     exh_len = ck.pick(3, 4)
     mods = {}
     bodies = {}
